@@ -326,6 +326,8 @@ def _patch_engine():
   def store_subscript(self, obj, idx, v, node):
     if isinstance(obj, SymMat):
       return mat_store(self, obj, idx, v)
+    if isinstance(obj, E.SymSeq) and isinstance(idx, tuple) and len(idx) == 2 and _full(idx[0]) and getattr(self, 'row_mode', False):
+      return o_store(self, obj, idx[1], v, node)        # row mode: x[:, k] = v on the generic row of a 2-d array
     return o_store(self, obj, idx, v, node)
 
   def fresh_like(self, v, base='h'):
